@@ -318,3 +318,30 @@ def contains_expr(node, reference_src):
             if Matcher(fb, rl).match(x, ref):
                 return True
     return False
+
+
+def _parse_ref(src):
+    try:
+        return 'expr', ast.parse(src, mode='eval').body
+    except SyntaxError:
+        return 'stmts', ast.parse(src).body
+
+
+def has(node, src):
+    """alpha-insensitive containment: does `node` (function, class, statement list or statement) contain the expression or the
+    consecutive statements given by `src`?  Local names of `node` may be renamed consistently; globals/attributes/constants not."""
+    kind, _ = _parse_ref(src)
+    if kind == 'expr':
+        return contains_expr(node, src)
+    target = node
+    if isinstance(node, list):
+        target = ast.Module(body=node, type_ignores=[])
+    return contains_stmts(target, src)
+
+
+def has_all(node, srcs):
+    return all(has(node, s) for s in srcs)
+
+
+def has_any(node, srcs):
+    return any(has(node, s) for s in srcs)
